@@ -673,3 +673,241 @@ Proof.
     as (X2 & _ & (_ & cev' & Hc' & Oc' & _)).
   exists items, cev'. auto.
 Qed.
+
+(* ------------------------------------------------------------------------------------------------ *)
+(* _check in isolation *)
+
+Theorem check_fails_with_operand c o s cev oev all ops n x :
+  get_event c s = Some cev -> kind cev = KCond all ops n -> out cev = None ->
+  get_event o s = Some oev -> out oev = Some (Fail x) -> c <> o ->
+  let s' := cond_check c o s in
+  (exists cev', get_event c s' = Some cev' /\ out cev' = Some (Fail x) /\ kind cev' = KCond all ops (S n)) /\
+  (exists oev', get_event o s' = Some oev' /\ defused oev' = true /\ out oev' = Some (Fail x)) /\
+  agenda s' = agenda s ++ [mkEntry (Qred (now s + 0)) NORMAL (next_eid s) c].
+Proof.
+  intros Hc Kc Oc Ho Oo N. cbv zeta. rewrite (cond_check_eq c o s cev oev all ops n Hc Ho Oc Kc N). cbv zeta.
+  unfold check_triggers, check_upd, is_failed. rewrite Oo. split; [|split].
+  - eexists. rewrite get_schedule. split; [apply get_upd_same; rewrite get_upd_other by exact N; exact Hc|]. cbn. auto.
+  - exists (ev_set_defused oev). rewrite get_schedule, get_upd_other by congruence. split; [apply get_upd_same, Ho|]. cbn. auto.
+  - reflexivity.
+Qed.
+
+Theorem check_succeeds_when c o s cev oev all ops n :
+  get_event c s = Some cev -> kind cev = KCond all ops n -> out cev = None ->
+  get_event o s = Some oev -> is_failed oev = false -> c <> o ->
+  let s' := cond_check c o s in
+  exists cev', get_event c s' = Some cev' /\ kind cev' = KCond all ops (S n) /\
+    out cev' = (if cond_evaluate all (length ops) (S n) then Some (Ok VNone) else None) /\
+    (forall a, a <> c -> get_event a s' = get_event a s).
+Proof.
+  intros Hc Kc Oc Ho Fo N. cbv zeta. rewrite (cond_check_eq c o s cev oev all ops n Hc Ho Oc Kc N). cbv zeta.
+  rewrite Fo. unfold check_triggers, check_upd, is_failed in *.
+  destruct (out oev) as [[v|x]|]; try discriminate;
+    (destruct (cond_evaluate all (length ops) (S n)); eexists; rewrite ?get_schedule;
+     (split; [apply get_upd_same, Hc|]); cbn; (split; [reflexivity|]); (split; [exact Oc || reflexivity|]);
+     intros a Na; rewrite ?get_schedule, get_upd_other by exact Na; reflexivity).
+Qed.
+
+(* a _check that arrives after the condition was triggered does nothing at all: the outcome of the condition is
+   not changed and a failed operand is NOT defused by it *)
+Theorem late_check_ignored c o s cev :
+  get_event c s = Some cev -> out cev <> None -> cond_check c o s = s.
+Proof. intros Hc Oc. apply cond_check_noop. right. right. exists cev. auto. Qed.
+
+(* ... so an operand that fails after the condition was met, and that nobody else handles, crashes step()/run()
+   with its exception: here for an event whose callbacks are only _checks of already triggered conditions and probes *)
+Definition late_cb (s : state) (c : cb) : Prop :=
+  match c with
+  | CbCheck c0 => exists cev, get_event c0 s = Some cev /\ out cev <> None
+  | CbProbe _ => True
+  | _ => False
+  end.
+
+Lemma late_callbacks_run fuel codes e l : forall s1,
+  (forall c, In c l -> late_cb s1 c) ->
+  exists s2, run_callbacks fuel codes e l s1 = (s2, ROk) /\ events s2 = events s1 /\ agenda s2 = agenda s1.
+Proof.
+  induction l as [|c t IH]; intros s1 H; cbn [run_callbacks]; [exists s1; auto|].
+  assert (Hc := H c (or_introl eq_refl)).
+  destruct c; cbn in Hc; try contradiction; cbn [run_cb].
+  - destruct Hc as (cev & Hc & Oc). rewrite (late_check_ignored _ _ _ _ Hc Oc).
+    apply IH. intros c' Hc'. apply H. right. exact Hc'.
+  - destruct (IH (probe_cb n e s1)) as (s2 & R & E & A).
+    + intros c' Hc'. specialize (H c' (or_intror Hc')). destruct c'; cbn in *; auto.
+    + exists s2. auto.
+Qed.
+
+Theorem late_failure_surfaces fuel codes s m rest ev l x :
+  pop_min (agenda s) = Some (m, rest) -> get_event (e_ev m) s = Some ev -> cbs ev = Some l ->
+  out ev = Some (Fail x) -> defused ev = false -> (forall c, In c l -> late_cb s c) ->
+  exists s', step fuel codes s = (s', RRaise x) /\
+             get_event (e_ev m) s' = Some (ev_set_cbs None ev) /\ agenda s' = rest.
+Proof.
+  intros Pm He Cl Oe De Hl. unfold step. rewrite Pm.
+  change (get_event (e_ev m) (pop_state m rest s)) with (get_event (e_ev m) s). rewrite He, Cl.
+  fold (popped m rest s).
+  assert (Gp : get_event (e_ev m) (popped m rest s) = Some (ev_set_cbs None ev)).
+  { unfold popped. apply get_upd_same. exact He. }
+  destruct (late_callbacks_run fuel codes (e_ev m) l (popped m rest s)) as (s2 & R & E & A).
+  - intros c Hc. specialize (Hl c Hc). destruct c; cbn in *; auto. destruct Hl as (cev & Hc0 & Oc).
+    unfold popped. rewrite get_upd. change (get_event c (pop_state m rest s)) with (get_event c s). rewrite Hc0.
+    destruct (Nat.eqb c (e_ev m)); cbn; eexists; split; try reflexivity; exact Oc.
+  - rewrite R. exists s2.
+    assert (G2 : get_event (e_ev m) s2 = Some (ev_set_cbs None ev)) by (unfold get_event in *; rewrite E; exact Gp).
+    split; [|split; [exact G2|rewrite A; reflexivity]].
+    unfold check_failure. rewrite G2. cbn. rewrite Oe, De. reflexivity.
+Qed.
+
+(* ------------------------------------------------------------------------------------------------ *)
+(* triggered once: the outcome of a condition, once set, is final (only _build_value replaces the placeholder
+   value of a successful condition by the ConditionValue) *)
+
+Definition final_out (o o' : option outcome) : Prop :=
+  match o with
+  | Some (Fail x) => o' = Some (Fail x)
+  | Some (Ok _) => exists v, o' = Some (Ok v)
+  | None => True
+  end.
+
+Lemma final_out_refl o : final_out o o.
+Proof. destruct o as [[v|x]|]; cbn; eauto. Qed.
+Lemma final_out_trans a b c : final_out a b -> final_out b c -> final_out a c.
+Proof.
+  destruct a as [[v|x]|]; cbn; auto.
+  - intros (v1 & ->). cbn. auto.
+  - intros ->. cbn. auto.
+Qed.
+
+Lemma prim_cond_final x s s' c cev :
+  prim x s s' -> get_event c s = Some cev -> is_cond cev = true ->
+  exists cev', get_event c s' = Some cev' /\ is_cond cev' = true /\ final_out (out cev) (out cev').
+Proof.
+  intros P Hc Kc. destruct P as [x s s' P|m rest s Pm|c0 o oev s Ho Co Op|c0 s].
+  - destruct (proj1 (iprim_keeps _ _ _ P) _ _ Hc) as (cev' & Hc' & K' & _ & _ & O').
+    exists cev'. split; [exact Hc'|]. split; [unfold is_cond in *; rewrite K'; exact Kc|].
+    destruct O' as [O'|[(O' & _)|(q & O')]].
+    + rewrite O'. apply final_out_refl.
+    + rewrite O'. exact I.
+    + unfold is_cond in Kc. rewrite O' in Kc. discriminate.
+  - unfold popped. rewrite get_upd. change (get_event c (pop_state m rest s)) with (get_event c s). rewrite Hc.
+    destruct (Nat.eqb c (e_ev m)); cbn; eexists; (split; [reflexivity|]); (split; [exact Kc|]); apply final_out_refl.
+  - destruct (Nat.eq_dec c c0) as [<-|N].
+    + destruct (out cev) as [oc|] eqn:Oc.
+      * rewrite cond_check_noop by (right; right; exists cev; split; [exact Hc|left; congruence]).
+        exists cev. rewrite Oc. split; [exact Hc|]. split; [exact Kc|]. apply final_out_refl.
+      * pose proof (grows_cond_check c o s) as [G _]. destruct (G _ _ Hc) as (cev' & Hc' & KL & _).
+        exists cev'. split; [exact Hc'|]. split; [|exact I].
+        unfold is_cond in *. destruct (kind cev) eqn:K; try discriminate.
+        destruct (kind_le_cond_fwd _ _ _ _ _ KL eq_refl) as (n' & K' & _). rewrite K'. reflexivity.
+    + destruct (cond_check_frame c0 o s c N) as [H|(Eco & oev' & Ho' & _ & H)].
+      * exists cev. rewrite H. split; [exact Hc|]. split; [exact Kc|]. apply final_out_refl.
+      * rewrite <- Eco in Ho'. rewrite Hc in Ho'. injection Ho' as <-. exists (ev_set_defused cev). rewrite H. cbn.
+        split; [reflexivity|]. split; [exact Kc|]. apply final_out_refl.
+  - pose proof (cond_build_rel c0 s c) as Rc. rewrite Hc in Rc.
+    destruct (get_event c (fst (cond_build c0 s))) as [cev'|]; [|contradiction].
+    destruct Rc as (K & _ & _ & O). exists cev'. split; [reflexivity|]. split; [unfold is_cond in *; rewrite K; exact Kc|].
+    destruct O as [O|(_ & v & v' & O1 & O2)]; [rewrite O; apply final_out_refl|]. rewrite O1, O2. cbn. eauto.
+Qed.
+
+Theorem cond_outcome_final X s s' c cev :
+  ptrace X s s' -> get_event c s = Some cev -> is_cond cev = true ->
+  exists cev', get_event c s' = Some cev' /\ is_cond cev' = true /\ final_out (out cev) (out cev').
+Proof.
+  intros T. revert cev. induction T as [|x X s s1 s2 P T IH]; intros cev Hc Kc.
+  - exists cev. split; [exact Hc|]. split; [exact Kc|]. apply final_out_refl.
+  - destruct (prim_cond_final _ _ _ _ _ P Hc Kc) as (cev1 & H1 & K1 & F1).
+    destruct (IH _ H1 K1) as (cev2 & H2 & K2 & F2). exists cev2. split; [exact H2|]. split; [exact K2|].
+    eapply final_out_trans; eassumption.
+Qed.
+
+(* ------------------------------------------------------------------------------------------------ *)
+(* construction *)
+
+Theorem cond_construction codes X all es s :
+  reach codes X s -> all_valid es s = true ->
+  let s' := fst (call_cond all es s) in
+  snd (call_cond all es s) = Ok (VEv (length (events s))) /\ cond_made s s' all es /\ cinv X s'.
+Proof.
+  intros R V. cbv zeta. split; [|split; [apply call_cond_spec, V|apply cinv_call_cond; [apply (reach_cinv _ _ _ R)|exact V]]].
+  unfold call_cond. rewrite V. cbn [negb]. rewrite (new_event_eq _ s). cbv beta iota. destruct es; reflexivity.
+Qed.
+
+Theorem cond_construction_refused codes all es s :
+  all_valid es s = false -> call_cond all es s = (s, Fail (kexn EAttribute M_not_an_event)) /\
+  do_call codes (if all then CAllOf es else CAnyOf es) s = (s, Fail (kexn EAttribute M_not_an_event)).
+Proof.
+  intros V. assert (E : call_cond all es s = (s, Fail (kexn EAttribute M_not_an_event))) by (unfold call_cond; rewrite V; reflexivity).
+  split; [exact E|]. destruct all; cbn [do_call]; exact E.
+Qed.
+
+Theorem cond_empty_immediate all s :
+  let s' := fst (call_cond all [] s) in
+  get_event (length (events s)) s' = Some (mkEvent (Some []) (Some (Ok (VCond []))) false (KCond all [] 0)) /\
+  agenda s' = agenda s ++ [mkEntry (Qred (now s + 0)) NORMAL (next_eid s) (length (events s))].
+Proof.
+  cbv zeta. unfold call_cond. cbn [all_valid forallb negb]. rewrite (new_event_eq _ s). cbv beta iota. cbn [fst].
+  unfold trigger_event. rewrite get_schedule. split; [|reflexivity].
+  rewrite (get_upd_same _ _ _ _ (get_new_new _ s)). reflexivity.
+Qed.
+
+(* any_of with operands: triggered at construction exactly when some operand is already processed *)
+Corollary any_of_at_construction es s cev n :
+  all_valid es s = true -> es <> [] ->
+  get_event (length (events s)) (fst (call_cond false es s)) = Some cev -> kind cev = KCond false es n ->
+  (out cev = None <-> procpos s es = 0%nat).
+Proof.
+  intros V Ne Hc Kc. pose proof (call_cond_spec false es s V) as M.
+  destruct (cm_new _ _ _ _ M) as (cev0 & n0 & H0 & K0 & _ & Le & Mo). rewrite Hc in H0. injection H0 as <-.
+  rewrite Kc in K0. injection K0 as <-. split.
+  - intros O. rewrite O in Mo. destruct Mo as (_ & Mn & Me & _). cbn in Me.
+    apply orb_false_iff in Me. destruct Me as [Me _]. destruct n; [lia|discriminate].
+  - intros P0. destruct (out cev) as [[v|x]|]; [| |reflexivity]; exfalso.
+    + assert (n = 0%nat) by lia. subst n. cbn in Mo. destruct es; [congruence|discriminate].
+    + destruct Mo as (o & oev & Io & Ho & Co & _).
+      assert (is_proc s o = true).
+      { pose proof (all_valid_lt _ _ V _ Io) as Lo. destruct (get_event o s) as [ev|] eqn:E; [|apply nth_error_None in E; lia].
+        destruct (cm_old _ _ _ _ M _ _ E) as (ev' & E' & _ & _ & _ & _ & C). rewrite Ho in E'. injection E' as <-.
+        unfold is_proc. rewrite E. unfold is_processed. rewrite C in Co. destruct (cbs ev); [discriminate|reflexivity]. }
+      pose proof (proj1 (procpos_zero s es) P0 o Io). congruence.
+Qed.
+
+(* all_of: succeeds at construction exactly when every operand is processed and none of the processed has failed *)
+Corollary all_of_at_construction es s cev n :
+  all_valid es s = true ->
+  get_event (length (events s)) (fst (call_cond true es s)) = Some cev -> kind cev = KCond true es n ->
+  (out cev = None -> (procpos s es < length es)%nat) /\
+  ((exists v, out cev = Some (Ok v)) -> procpos s es = length es) /\
+  (forall x, out cev = Some (Fail x) -> exists o oev, In o es /\ get_event o s = Some oev /\ cbs oev = None /\ out oev = Some (Fail x)).
+Proof.
+  intros V Hc Kc. pose proof (call_cond_spec true es s V) as M.
+  destruct (cm_new _ _ _ _ M) as (cev0 & n0 & H0 & K0 & _ & Le & Mo). rewrite Hc in H0. injection H0 as <-.
+  rewrite Kc in K0. injection K0 as <-. pose proof (procpos_le_length s es) as PL. split; [|split].
+  - intros O. rewrite O in Mo. destruct Mo as (_ & Mn & Me & _). cbn in Me. apply Nat.eqb_neq in Me. lia.
+  - intros (v & O). rewrite O in Mo. cbn in Mo. apply Nat.eqb_eq in Mo. lia.
+  - intros x O. rewrite O in Mo. destruct Mo as (o & oev & Io & Ho & Co & _ & Oo).
+    pose proof (all_valid_lt _ _ V _ Io) as Lo. destruct (get_event o s) as [ev|] eqn:E; [|apply nth_error_None in E; lia].
+    destruct (cm_old _ _ _ _ M _ _ E) as (ev' & E' & _ & O' & _ & _ & C). rewrite Ho in E'. injection E' as <-.
+    exists o, ev. split; [exact Io|]. split; [exact E|]. split; [rewrite C in Co; destruct (cbs ev); [discriminate|reflexivity]|congruence].
+Qed.
+
+(* the counter never exceeds the number of processed operand positions, hence the number of operands *)
+Theorem cond_count_le codes X s c cev all ops n :
+  creach codes X s -> get_event c s = Some cev -> kind cev = KCond all ops n ->
+  (n <= procpos s ops)%nat /\ (procpos s ops <= length ops)%nat.
+Proof.
+  intros CR Hc Kc. destruct (creach_bnd _ _ _ CR _ _ _ _ _ Hc Kc) as (B1 & _). rewrite cbcount_nil, Nat.add_0_r in B1.
+  split; [exact B1|apply procpos_le_length].
+Qed.
+
+(* at step boundaries a pending, attached condition has counted exactly its processed operands, its predicate is
+   false, and none of its processed operands has failed (Process events excepted, see the report) *)
+Theorem cond_pending_boundary codes X s c cev all ops n :
+  creach codes X s -> get_event c s = Some cev -> kind cev = KCond all ops n -> out cev = None -> ~ detached s c ->
+  n = procpos s ops /\ cond_evaluate all (length ops) n = false /\ attached s c ops /\
+  (forall o oev, In o ops -> get_event o s = Some oev -> cbs oev = None -> is_failed oev = true -> kproc oev).
+Proof.
+  intros CR Hc Kc Oc ND. destruct (creach_bnd _ _ _ CR _ _ _ _ _ Hc Kc) as (_ & B2).
+  destruct (B2 Oc) as [D|(A & Q & F)]; [contradiction|]. rewrite cbcount_nil, Nat.add_0_r in Q.
+  split; [exact Q|]. split; [eapply ci_pending; [eapply reach_cinv, creach_reach, CR|exact Hc|exact Kc|exact Oc]|].
+  split; [exact A|]. intros o oev Io Ho Co Fo. destruct (F _ _ Io Ho Co Fo) as [K|(_ & [])]. exact K.
+Qed.
